@@ -98,8 +98,8 @@ class Quadrangle:
         common_1 = self.get_common_points(self.points, quad_1.points)
         common_2 = self.get_common_points(common_1, quad_2.points)
 
-        if len(common_2) > 1:
-            raise DegenerateGeometryError("More than a single common point between 3 faces!")
+        if len(common_2) != 1:
+            raise DegenerateGeometryError("Three faces do not meet in exactly one common point!")
 
         return common_2[0]
 
